@@ -3,6 +3,7 @@ import GinjaxVerif.Lemmas.C08Norm
 import GinjaxVerif.Lemmas.C08VN
 import GinjaxVerif.Lemmas.C08Refine
 import GinjaxVerif.Lemmas.SignedPerm
+import GinjaxVerif.Lemmas.C08InvSqrt
 
 /-!
 # C08 — normalisation, nonlinearity and pooling blocks commute with the group action
@@ -20,7 +21,9 @@ of the whitening are parameters; the only hypotheses are the ones the property i
 * `hG` — the number of groups divides the number of channels (asserted by the code),
 * `hS` — the matrix function standing for `eigh` (`C ↦ U diag(λ^{-1/2}) Uᵀ`) commutes with
   conjugation by signed permutations on symmetric matrices; satisfied by the identity and by every
-  polynomial (`conjEquivariant_id`, `conjEquivariant_poly`).
+  polynomial (`conjEquivariant_id`, `conjEquivariant_poly`) and, over `ℝ`, **by the function the
+  code computes**, the symmetric inverse square root `invSqrtR` (`hS_invSqrt`; last section:
+  `groupNorm_vector_equivariant_invSqrt` has no hypothesis on a matrix function left).
 
 The `_rel` lemmas of `Lemmas/C08*.lean` are the compositional (relational) forms to be used when
 whole networks are assembled (C07).
@@ -284,5 +287,82 @@ example (M : Mat 2) (hM : isSignedPerm M = true) (B : Blk Rat 2) (hk : B.k = 1) 
       (tgeBlk M 1 (groupNormVector (fun X => X) (1 / 100000) 2 scale bias B)) :=
   groupNorm_vector_equivariant M hM (fun X => X) (fun N hN Cv h => hS_id N hN Cv h) _ 2 scale bias 1 B
     hk hG
+
+/-! ### `hS` discharged for the function the code computes: the symmetric inverse square root
+
+`invSqrtPD A = (CFC.sqrt A)⁻¹` (`Lemmas/C08InvSqrt.lean`) is `A ↦ A^{-1/2}` through Mathlib's
+continuous functional calculus; `invSqrtR` is the same function on the model's matrix type.  It is
+what `U diag(1/√(λ + eps)) Uᵀ` of `_group_norm_K1` denotes: for `eps > 0` the matrix `cov + eps·I`
+is positive definite and `invSqrtR` of it is the *unique* positive (semi)definite `W` with
+`W (cov + eps·I) W = 1` (`invSqrt_whitening_spec`). -/
+
+/-- **the symmetric inverse square root commutes with conjugation by every orthogonal matrix**, on
+every real matrix (outside the positive semidefinite ones both sides are `0`) -/
+theorem invSqrt_conjEquivariant (g A : Matrix (Fin d) (Fin d) ℝ) (hg : g.transpose * g = 1) :
+    invSqrtPD (g * A * g.transpose) = g * invSqrtPD A * g.transpose :=
+  _root_.GinjaxVerif.invSqrt_conjEquivariant g A hg
+
+/-- the characterisation that makes `invSqrtPD` the function of the code: on a positive definite
+`A` it is a positive definite `W` with `W A W = 1`, and the only positive semidefinite one -/
+theorem invSqrt_characterisation {A : Matrix (Fin d) (Fin d) ℝ} (hA : A.PosDef) :
+    (invSqrtPD A).PosDef ∧ invSqrtPD A * A * invSqrtPD A = 1 ∧
+      ∀ W : Matrix (Fin d) (Fin d) ℝ, W.PosSemidef → W * A * W = 1 → W = invSqrtPD A :=
+  ⟨(invSqrtPD_spec hA).1, (invSqrtPD_spec hA).2, fun _ h1 h2 => invSqrtPD_unique h1 h2⟩
+
+/-- signed permutation matrices are orthogonal -/
+theorem signedPerm_orthogonal (g : SP d) : g.matR.transpose * g.matR = 1 := g.matR_orth
+
+/-- **`hS` holds for the inverse square root**, in the form `groupNorm_vector_equivariant` and
+`layerNorm_equivariant` consume -/
+theorem hS_invSqrt (N : Mat d) (hN : isSignedPerm N = true) (Cv : RMat ℝ d)
+    (_ : ∀ i j, Cv i j = Cv j i) : invSqrtR (conjMat N Cv) = conjMat N (invSqrtR Cv) := by
+  obtain ⟨g, rfl⟩ := exists_SP_of_isSignedPerm N hN
+  rw [conjMat_mat, conjMat_mat]
+  exact invSqrtR_conj g Cv
+
+/-- the same in the form C07 consumes (`ConjEquivariant F.S`) -/
+theorem conjEquivariant_invSqrt : ConjEquivariant (invSqrtR (d := d)) :=
+  _root_.GinjaxVerif.conjEquivariant_invSqrt
+
+/-- **`GroupNorm` on vectors and pseudo-vectors `(1,p)` with the whitening the code computes**
+commutes with the group: no hypothesis on a matrix function is left.  (`eps > 0` is not needed for
+the commutation; it is what makes `invSqrtR` the code's `eigh` formula, `invSqrt_whitening_spec`.) -/
+theorem groupNorm_vector_equivariant_invSqrt (M : Mat d) (hM : isSignedPerm M = true) (eps : ℝ)
+    (G : Nat) (scale bias : Nat → ℝ) (p : Nat) (B : Blk ℝ d) (hk : B.k = 1) (hG : G ∣ B.C) :
+    (groupNormVector invSqrtR eps G scale bias (tgeBlk M p B)).Equiv
+      (tgeBlk M p (groupNormVector invSqrtR eps G scale bias B)) :=
+  groupNorm_vector_equivariant M hM invSqrtR hS_invSqrt eps G scale bias p B hk hG
+
+/-- `LayerNorm` with the whitening the code computes -/
+theorem layerNorm_equivariant_invSqrt (M : Mat d) (hM : isSignedPerm M = true)
+    (rsqrt max0 : ℝ → ℝ) (eps : ℝ) (weight bias scale : Nat → ℝ) (p : Nat) (B : Blk ℝ d) :
+    (B.k = 0 → (groupNormScalar rsqrt max0 eps 1 weight bias (tgeBlk M 0 B)).Equiv
+      (tgeBlk M 0 (groupNormScalar rsqrt max0 eps 1 weight bias B))) ∧
+    (B.k = 0 → (groupNormPseudo rsqrt max0 eps 1 scale (tgeBlk M p B)).Equiv
+      (tgeBlk M p (groupNormPseudo rsqrt max0 eps 1 scale B))) ∧
+    (B.k = 1 → (groupNormVector invSqrtR eps 1 scale bias (tgeBlk M p B)).Equiv
+      (tgeBlk M p (groupNormVector invSqrtR eps 1 scale bias B))) :=
+  layerNorm_equivariant M hM rsqrt max0 invSqrtR hS_invSqrt eps weight bias scale p B
+
+/-- **the model with `S = invSqrtR` whitens as the code does**: for `eps > 0`, every block and
+every channel group, the matrix `cov + eps·I` handed to `S` is positive definite, and the
+whitening matrix `W = S (cov + eps·I)` used by `groupNormK1 invSqrtR` is positive definite, solves
+`W (cov + eps·I) W = 1`, and is the only positive semidefinite solution -/
+theorem invSqrt_whitening_spec (B : Blk ℝ d) (cpg grp : Nat) {eps : ℝ} (heps : 0 < eps) :
+    let A : Matrix (Fin d) (Fin d) ℝ := Matrix.of (addEps eps (grpCov B cpg grp))
+    let W : Matrix (Fin d) (Fin d) ℝ := Matrix.of (invSqrtR (addEps eps (grpCov B cpg grp)))
+    A.PosDef ∧ W.PosDef ∧ W * A * W = 1 ∧
+      ∀ W' : Matrix (Fin d) (Fin d) ℝ, W'.PosSemidef → W' * A * W' = 1 → W' = W :=
+  ⟨addEps_grpCov_posDef B cpg grp heps, whitening_spec B cpg grp heps⟩
+
+/-- the whitening matrix `groupNormK1 invSqrtR` applies to channel `c` is that `W` (by definition) -/
+example (eps : ℝ) (G : Nat) (B : Blk ℝ d) :
+    groupNormK1 invSqrtR eps G B
+      = whitenWith (B.C / G) (fun grp i => grpMean B (B.C / G) grp [i])
+          (fun grp => invSqrtR (addEps eps (grpCov B (B.C / G) grp))) B := rfl
+
+/-- non-vacuity: on the identity matrix the inverse square root is the identity -/
+example : invSqrtPD (1 : Matrix (Fin 2) (Fin 2) ℝ) = 1 :=
+  (invSqrtPD_unique Matrix.PosSemidef.one (by simp)).symm
 
 end GinjaxVerif.C08
